@@ -17,6 +17,7 @@ Inductive case :=
 | CGb (which : Z) (text : str)                   (* GenBank: 0 MinimalGenbankParser(text.splitlines()) | 1 minimal_parser(bytes), pinned |
                                                     2 minimal_parser(bytes), source variant that strips records *)
 | CGbStream (n : Z) (text : str)                 (* MinimalGenbankParser(iter_splitlines(path, chunk_size=n)) *)
+| CSuffixes (name : str)                         (* get_format_suffixes(name) *)
 | CRound (fmt : Z) (w : Z) (recs : list rec).    (* parser_of_loader(writer(recs)) : 0 fasta | 1 phylip | 2 paml | 3 gde |
                                                     4 fasta with the bytes parser variant 7 *)
 
@@ -66,6 +67,7 @@ Definition run_case (c : case) : val :=
       else vgb (gb_bytes_parser (which =? 2) text)
   | CGbStream n text =>
       if n <=? 0 then VE 2 else vgb (gb_lines_parser (iter_splitlines (chunks_of (Z.to_nat n) text)))
+  | CSuffixes name => let p := get_format_suffixes name in VL [vopt (fst p); vopt (snd p)]
   | CRound fmt w recs =>
       if w <=? 0 then VE 2 else
       let wn := Z.to_nat w in
